@@ -16,7 +16,6 @@ import (
 	"context"
 	"errors"
 	"fmt"
-	"os"
 	"strings"
 	"sync"
 	"testing"
@@ -203,7 +202,6 @@ func TestVerifC12SingleReplica(t *testing.T) {
 		ctx, cancel := context.WithCancel(context.Background())
 		d := &verifC12Single{c: c, ctx: ctx}
 		stuck := ""
-		dev := os.Getenv("VERIF_C12_DEV") != ""
 		restarts, crashes, busyStops := 0, 0, 0
 		var crashWhat []string
 		func() {
@@ -213,7 +211,6 @@ func TestVerifC12SingleReplica(t *testing.T) {
 				cancel()
 				d.wg.Wait()
 			}()
-			bootStart := time.Now()
 			if err := d.node().start(); err != nil {
 				stuck = "start: " + err.Error()
 				return
@@ -221,9 +218,6 @@ func TestVerifC12SingleReplica(t *testing.T) {
 			if d.waitLeader() != nil {
 				stuck = "no leader after bootstrap"
 				return
-			}
-			if dev {
-				fmt.Printf("DEVTIME boot %v\n", time.Since(bootStart).Round(100*time.Microsecond))
 			}
 			comeBack := func() bool {
 				if err := d.node().start(); err != nil {
@@ -292,22 +286,13 @@ func TestVerifC12SingleReplica(t *testing.T) {
 				return true
 			}
 			for _, op := range ops {
-				opStart := time.Now()
-				ok := runOp(op)
-				if dev {
-					fmt.Printf("DEVTIME %s %v\n", op.Kind, time.Since(opStart).Round(100*time.Microsecond))
-				}
-				if !ok {
+				if !runOp(op) {
 					return
 				}
 			}
-			qStart := time.Now()
 			if d.quiesce() == nil {
 				c.hist.SettleSeq = c.hist.now()
 				c.hist.Settled = true
-			}
-			if dev {
-				fmt.Printf("DEVTIME quiesce %v\n", time.Since(qStart).Round(100*time.Microsecond))
 			}
 			if err := d.node().stop(); err != nil {
 				stuck = "close: " + err.Error()
@@ -325,9 +310,6 @@ func TestVerifC12SingleReplica(t *testing.T) {
 			rt.Fatalf("C12 violated\ncase: %s\n  %s", desc.String(), strings.Join(facts.Violations, "\n  "))
 		}
 		if stuck != "" {
-			if dev {
-				fmt.Printf("DEVSTUCK %s :: %s\n", stuck, desc.String())
-			}
 			// a bounded wait ran out: not a verdict
 			rt.Skip("not judged: " + stuck)
 		}
